@@ -8,8 +8,6 @@ Open Scope Z_scope.
 
 Section Progress.
 Variable p : program.
-Variable rk : node -> nat.
-Hypothesis Hrk : forall n e d, alookup p n = Some e -> In d (expr_reads e) -> (rk d < rk n)%nat.
 Hypothesis Hnog : forall n e, alookup p n = Some e -> no_group e = true.
 Hypothesis Htargets : forall n e d, alookup p n = Some e -> In d (expr_reads e) ->
   nkind d = KInput \/ (nkind d = KNormal /\ alookup p d <> None).
@@ -108,9 +106,11 @@ Definition Askable (s : cstate) (d : node) : Prop :=
 Lemma Askable_mono : forall stk s s' d, MonoR stk s s' -> Askable s d -> Askable s' d.
 Proof. intros stk s s' d HM [H|H]; [left; eapply mr_stored; eauto|right; exact H]. Qed.
 
-Notation StkOk := (CoreInvRun.StkOk rk).
-Notation StkOk_notin := (CoreInvRun.StkOk_notin p rk Hrk).
-Notation StkOk_push := (CoreInvRun.StkOk_push p rk Hrk).
+(** the abstract stack condition of [Engine/CoreInvRun.v] *)
+Variable StkOk : list node -> node -> Prop.
+Hypothesis StkOk_notin : forall stk n, StkOk stk n -> ~ In n stk.
+Hypothesis StkOk_push : forall stk n e d,
+  StkOk stk n -> alookup p n = Some e -> In d (expr_reads e) -> StkOk (n :: stk) d.
 
 Definition Cov (inp : inputs) : Prop :=
   forall n e d, alookup p n = Some e -> In d (expr_reads e) -> nkind d = KInput ->
@@ -190,12 +190,12 @@ Proof.
       destruct (cget s cal) as [ci|]; [|congruence].
       destruct (alookup (c_obs i) cal) as [ov|]; [|congruence].
       destruct (negb (c_value ci =? ov)); [auto|]. apply IH; auto.
-    + assert (Hrkc : (rk cal < rk n)%nat).
+    + assert (Hrkc : StkOk (n :: stk) cal).
       { destruct (sk_kind _ _ HS n i Hi) as [[_ K2]|[_ [e [He Hr]]]].
         - rewrite K2 in Hcal. destruct Hcal.
-        - eapply Hrk; eauto. }
+        - eapply StkOk_push; eauto. }
       assert (Hask : Askable s cal) by (left; eapply sk_target; eauto).
-      pose proof (IHq (n :: stk) (CCRepair n pd) (Some fr) cal s HS (StkOk_push _ _ _ Hstk Hrkc)) as P.
+      pose proof (IHq (n :: stk) (CCRepair n pd) (Some fr) cal s HS Hrkc) as P.
       destruct (cquery p f (n :: stk) (CCRepair n pd) (Some fr) cal s) as [[[o fr'] s']| |c0|] eqn:Eq.
       2: exact I.
       2-3: intro Hp; apply P; split; assumption.
@@ -251,7 +251,7 @@ Proof.
       destruct (nkind n) eqn:Hk; try (intros (_ & K & _); discriminate).
       destruct (alookup p n) as [e|] eqn:Ee; [|intros (_ & _ & K); congruence].
       assert (Hpre : forall d, In d (expr_reads e) -> StkOk (n :: stk) d).
-      { intros d Hd. apply StkOk_push; [exact Hstk|eapply Hrk; eauto]. }
+      { intros d Hd. eapply StkOk_push; eauto. }
       assert (HS0 : SInv inp (cset_log s (n :: cs_log s))) by (eapply SInv_nodes; [|exact HS]; reflexivity).
       assert (Hfr0 : FrS (cset_log s (n :: cs_log s)) []) by (intros d []).
       match goal with |- context [ceval p f ?a ?b ?c ?d ?e] =>
